@@ -89,6 +89,34 @@ CLAIMED = {
         design="6/C12", technique="TLA+ model checked by TLC; exhaustive transition replay; TLC trace judge"),
 }
 
+OBS_NOTE = ("Trusted: TLC; ElementTree; harness/project.py view_ro_xml (direct read of timing/body data from the XML); "
+            "harness/observe.py (accessor caller). Numbers restricted to quarter-second multiples and zone-less ISO times; "
+            "float rounding / other date formats are not decided by the model.")
+CLAIMED.update({
+    "C15": dict(
+        text="spec/MosObserve.tla defines every accessor result as a function of the document view; TLC enumerates views (0..2/3 "
+             "stories x 11 timing shapes incl. metadata without payload and no metadata x roEdStart; all paragraph texts up to length "
+             "4/5 over 8 characters; all bodies up to 3/4 elements); every view is rendered, every documented accessor of "
+             "RunningOrder/Story/Item is called and TLC (Trace_Observe) judges: nothing raised, ids/slugs/items agree with the XML. "
+             "The same observation step is taken inside MosLife behaviours (states reached by merges, incl. stories without timing).",
+        design="6/C15", technique="TLA+ functional model checked by TLC; exhaustive replay of bounded views + observation steps in behaviour replay; TLC trace judge",
+        note=OBS_NOTE),
+    "C16": dict(
+        text="Duration precedence, prefix-sum offsets, start/end derivation and running-order aggregates are TLA+ operators; TLC "
+             "checks the identities (sums, chaining, explicit-wins) on the spec for every timing view and judges the values the real "
+             "accessors return for every rendered view and for observation steps inside behaviours (after reordering/inserting/"
+             "replacing/deleting merges).",
+        design="6/C16", technique="TLA+ arithmetic model over integers checked by TLC; replay of bounded views and behaviours; TLC trace judge",
+        note=OBS_NOTE),
+    "C17": dict(
+        text="Strip / technical-note / script / body / concatenation are TLA+ operators over code-point sequences; TLC enumerates "
+             "every paragraph string up to length 4/5 over {space, tab, nbsp, ( ) < > a} and every body up to 3/4 elements over "
+             "{p, empty p, bracketed p, item, other}; the real Story/RunningOrder script and body are judged against them, also at "
+             "observation steps inside behaviours (notably after roStorySend).",
+        design="6/C17", technique="TLA+ string model checked by TLC; exhaustive replay of bounded texts/bodies; TLC trace judge",
+        note=OBS_NOTE),
+})
+
 PENDING_REASON = "check under construction (DESIGN.md section 11); will be claimed once its TLA+ binding is built"
 
 
